@@ -36,8 +36,11 @@ def run_tlc(mod, cfg, workers=8, coverage=False, timeout=1800, simulate=None, de
             shutil.copy(os.path.join(V, "spec", f), d)
     for src, name in (extra_files or []):
         shutil.copy(src, os.path.join(d, name))
-    cfgp = cfg if os.path.isabs(cfg) else os.path.join(d, cfg)
-    if os.path.isabs(cfg): shutil.copy(cfg, os.path.join(d, os.path.basename(cfg))); cfgp = os.path.join(d, os.path.basename(cfg))
+    if isinstance(cfg, tuple):          # (name, text): a configuration generated for this run
+        cfgp = os.path.join(d, cfg[0])
+        with open(cfgp, "w") as f: f.write(cfg[1])
+    else:
+        cfgp = os.path.join(d, cfg)
     out = os.path.join(d, "tlc.out")
     cmd = ["timeout", str(timeout), "java", "-Xss" + xss, "-XX:+UseParallelGC", "-cp", JAVA_CP, "tlc2.TLC",
            "-workers", str(workers), "-metadir", os.path.join(d, "md"), "-config", cfgp]
